@@ -79,7 +79,11 @@ class RedfieldRelaxationTensor(RelaxationTensor):
                  cutoff_time=None, as_operators=False,
                  name=""):
                      
-        self._initialize_basis()
+        # the basis of the context in which the tensor is created; the tensor
+        # is registered with that context only when it has been built, so
+        # that a refused construction leaves nothing behind for the context
+        cb = self.manager.get_current_basis()
+        self.set_current_basis(cb)
         
         #
         # Check the types of the arguments
@@ -130,6 +134,9 @@ class RedfieldRelaxationTensor(RelaxationTensor):
 
         self.Iterm = None
         self.has_Iterm = False
+
+        if cb != 0:
+            self.manager.register_with_basis(cb, self)
 
 
     def apply(self, oper, copy=True):
